@@ -2141,14 +2141,21 @@ class _GroupElem(ABC):
                 else:
                     # This is the most time-consuming method.
                     # We need to construct the Jacobian matrices here.
+                    # The residual is made dimensionless (element size): the stopping
+                    # criteria of least_squares are absolute, the result must not depend
+                    # on the unit of length.
+                    size = np.max(np.ptp(coordElemBase[:, :dim], axis=0))
+
                     def Eval(xi: _types.FloatArray, xP: _types.FloatArray):
                         N = _GroupElem._Eval_Functions(N_tild, xi.reshape(1, -1))
                         J = N[0, 0] @ coordElemBase[:, :dim] - xP  # cost function
-                        return J
+                        return J / size
 
                     xiP = []
                     for xP in xP_n:
-                        res = least_squares(Eval, 0 * xP, args=(xP,))
+                        res = least_squares(
+                            Eval, 0 * xP, args=(xP,), xtol=1e-15, ftol=1e-15, gtol=1e-15
+                        )
                         xiP.append(res.x)
 
                 # xiP are the n coordinates of the n points in (ξ, η, ζ).
